@@ -222,13 +222,14 @@ def run(chk):
     chk.trust("Python grammar via ast", "re: the module-level contig patterns are matched by the real `re` engine on constant strings", "merge() returns a sorted, disjoint table (C06-D3)")
     chk.clause("D1", "exclude files may overlap or nest: subtract()'s precondition is established (C06-D1 rule)")
     C06.d1(chk, prog)
+    C07.d6(chk, prog)            # exclusion is per sequence: chromosome pairing of by_shared_chroms (shared with C07-D6)
+    C06.d1b(chk, prog)          # the subtraction itself on literal tables
     C06.d3b(chk, prog)           # the subtrahend is merged first: merge's fast path and grouping predicate (C06-D3, D3b)
     C06.d3(chk, prog)
     d2(chk, prog)
     d2b(chk, prog)
     d3(chk, prog)
     d4(chk, prog)
-    C07.d6(chk, prog)            # exclusion is per sequence: chromosome pairing of by_shared_chroms (shared with C07-D6)
 
 
 _A = "cnvlib/access.py"
